@@ -42,6 +42,7 @@ NODES = ['nil', 'n0', 'n1', 'n2', 'n3']
 ANY_SAFE = ['nil', 'i5', 'i-2', 'i0', 'tab', 't', 'pn0', 'pn1', 'pn2', 'pn3', 'tn'] + [f'z{k}' for k in range(16)]
 ANY_CYC = ['z20', 'z21', 'z22', 'z23']
 CYC_RE = re.compile(r'\bz2[0-3]\b')
+NOHOME = '@nohome '
 F13_KEY = 'F13-fmt-slice-map-cycle-debug-only'
 F14_KEY = 'F14-mock-of-function-the-console-logger-calls'
 
@@ -153,6 +154,20 @@ def gen_streams(tier, rng, scale=1):
     tg = INT_T + PA_T + ['fa', 'fp', 'ip', 'fv', 'mv', 'iv']      # weight the value-heavy and variadic targets
     for i in range(n):
         bodies.append(gen_scenario(r, r.choice(tg), malformed=(i % 10 == 9)))
+    r = rng.fork('nohome')
+    hb = list(NOHOME_CORPUS)
+    for i in range((120 if tier == 'quick' else 1500) * scale):
+        t = r.choice(tg)
+        o = gen_scenario(r, t).split(' ', 1)[1].split(' ; ')
+        # switch logging on AND off again somewhere, then keep configuring and calling
+        k = r.below(len(o) + 1)
+        pair = r.choice([['dbg tron', 'dbg troff'], ['dbg tron', 'dbg troff'], ['dbg on', 'dbg off'], ['dbg tron', 'dbg off'], ['dbg on', 'dbg troff']])
+        o[k:k] = pair
+        o += [('apply ' + gen_cb(r, t)), gen_call(r, t), 'cancel', 'ret ' + gen_result(r, t), gen_call(r, t), 'cancel']
+        hb.append(f'{t} ' + ' ; '.join(o))
+    bodies += [NOHOME + b for b in hb]
+    # every scenario that touches the switches also runs with those operations removed ("logging never touched")
+    bodies += [s for s in (strip_dbg(b) for b in bodies if ' dbg ' in b) if s]
     r = rng.fork('cyc')
     risky = []
     for i in range((6 if tier == 'quick' else 24) * scale):
@@ -171,7 +186,7 @@ def gen_streams(tier, rng, scale=1):
         if r.chance(1, 3):
             o.insert(r.below(len(o)), 'dbg ' + r.choice(['on', 'off', 'tron', 'troff']))
         risky.append(t + ' ' + ' ; '.join(o))
-    risky += ['lib ' + f for f in LIB_FUNCS]
+    risky += ['lib ' + f for f in LIB_FUNCS + TIME_NOW]
     r = rng.fork('it')
     for i in range((3 if tier == 'quick' else 12) * scale):
         o = []
@@ -190,6 +205,8 @@ def gen_streams(tier, rng, scale=1):
 LIB_FUNCS = ['fmt.Print', 'fmt.Println', 'fmt.Fprint', 'fmt.Sprint', 'fmt.Sprintln', 'strings.Repeat', 'strings.ToUpper',
              'strings.TrimSpace', 'strconv.Quote', 'strconv.FormatBool', 'path.Join', 'filepath.Base']   # none is on the logger's path today
 
+TIME_NOW = ['time.Now/func', 'time.Now/name', 'time.Now/ret', 'time.Now/as']   # every handle kind; debug.go:14 must recognise all of them
+
 CORPUS_RISKY = [
     'ow call - ; apply org1000 ; call - ; cancel ; call -',            # Origin placeholder of a leaf whose first instructions are RIP-relative
     'ox apply org5 ; call 3 ; call -1 ; cancel ; call 2',
@@ -205,6 +222,32 @@ CORPUS_RISKY = [
     'it dbg on ; apply sum2 ; dbg off ; call 7 ; dbg on ; call 7 ; cancel',   # wrapped, console off: no re-entry; console on: re-entry
     'it dbg off ; apply sum1 ; dbg on ; call 3 ; cancel',                      # applied while closed: never wrapped, all four agree
 ]
+
+
+NOHOME_CORPUS = [
+    'f2 apply sum1 ; call 1,s ; dbg tron ; dbg troff ; apply sum2 ; call 1,s ; cancel ; ret 5 ; call 2,s ; cancel',
+    'ms dbg tron ; dbg troff ; apply sum1 ; call 1,s ; cancel ; when 1,s 4 ; call 1,s ; cancel',
+    'ia dbg on ; apply sum1 ; dbg off ; call 1,sa ; cancel ; dbg tron ; ret 3 ; dbg troff ; call 1,sa ; rets 1|2 ; call 0,s ; cancel',
+]
+
+
+def strip_dbg(body):
+    """the same scenario with the OpenDebug/CloseDebug/OpenTrace/CloseTrace operations removed ('' if nothing else is left)"""
+    pre = NOHOME if body.startswith(NOHOME) else ''
+    tgt, rest = body[len(pre):].split(' ', 1)
+    keep = [o for o in rest.split(' ; ') if not o.startswith('dbg ')]
+    return f'{pre}{tgt} ' + ' ; '.join(keep) if keep else ''
+
+
+def erase_T(body, T):
+    """transcript of `body` without the tokens of its switch operations (None if T is not a full transcript)"""
+    if T is None or not T.startswith('T='):
+        return None
+    ops = body[len(NOHOME) if body.startswith(NOHOME) else 0:].split(' ', 1)[1].split(' ; ')
+    toks = T[2:].split('|')
+    if len(toks) != len(ops):
+        return None
+    return 'T=' + '|'.join(t for o, t in zip(ops, toks) if not o.startswith('dbg '))
 
 
 def corpus():
@@ -249,7 +292,7 @@ def crash_class(text):
     return 'exit'
 
 
-def run_cfg(binary, cfg, ops_path, n, idxs, tag, maxstack=None, timeout=600):
+def run_cfg(binary, cfg, ops_path, n, idxs, tag, maxstack=None, timeout=600, nohome=False):
     """Run the probe for one configuration over lines `idxs` of the ops file, restarting after a crash.
     Returns {line index: observation}; a line that killed the process gets 'CRASH:<class>'."""
     res = {}
@@ -264,6 +307,9 @@ def run_cfg(binary, cfg, ops_path, n, idxs, tag, maxstack=None, timeout=600):
         env.pop('GOOM_DEBUG', None)
         if cfg == 'env':
             env['GOOM_DEBUG'] = '1'
+        if nohome:
+            env['HOME'] = os.path.join(C.BUILD, 'no-such-home', 'x')      # $HOME/logs cannot be created: the log file stays unopened
+            env['VERIF_C19_NOHOME'] = '1'
         if maxstack:
             env['VERIF_C19_MAXSTACK'] = str(maxstack)
             env['VERIF_C19_ISOLATED'] = '1' 
@@ -299,11 +345,12 @@ def T_of(obs):
 def execute(bodies, risky, sv, tag='c19'):
     """Returns (ops, impl, model, groups) where groups = [(body, {cfg: line index}, is_risky)]."""
     ops, groups = [], []
-    for body, rk in [(b, False) for b in bodies] + [(b, True) for b in risky]:
+    for body, rk in [(b, 'h' if b.startswith(NOHOME) else False) for b in bodies] + [(b, True) for b in risky]:
         g = {}
         for cfg in CFGS:
             g[cfg] = len(ops)
-            ops.append(f'c19.lib {cfg} {body.split()[1]}' if body.startswith('lib ') else f'c19.s {cfg} {body}')
+            ops.append(f'c19.lib {cfg} {body.split()[1]}' if body.startswith('lib ') else
+                       f'c19.h {cfg} {body[len(NOHOME):]}' if body.startswith(NOHOME) else f'c19.s {cfg} {body}')
         groups.append((body, g, rk))
     sv0 = len(ops)
     ops += sv
@@ -318,6 +365,10 @@ def execute(bodies, risky, sv, tag='c19'):
             idxs = [g[cfg] for _, g, rk in groups if not rk] + (list(range(sv0, len(ops))) if cfg == 'off' else [])
             for i, v in run_cfg(binary, cfg, ops_path, len(ops), idxs, tag).items():
                 impl[i] = v
+            idxs = [g[cfg] for _, g, rk in groups if rk == 'h']
+            if idxs:
+                for i, v in run_cfg(binary, cfg, ops_path, len(ops), idxs, tag + '.nohome', nohome=True).items():
+                    impl[i] = v
         except Exception as e:  # noqa: BLE001
             errs.append(e)
 
@@ -327,7 +378,7 @@ def execute(bodies, risky, sv, tag='c19'):
     if errs:
         raise errs[0]
     # risky scenarios: every (scenario, configuration) in its own child process, small stack limit so the overflow is quick
-    jobs = [(g[cfg], cfg) for _, g, rk in groups if rk for cfg in CFGS]
+    jobs = [(g[cfg], cfg) for _, g, rk in groups if rk is True for cfg in CFGS]
 
     def risky_work(chunk, k):
         try:
@@ -389,6 +440,20 @@ def assess(ops, impl, model, groups, out, report=True):
             what, key = r
             bad.append((body, what, key))
     bad.sort(key=lambda b: b[2] is not None)      # unknown failures first
+    # switching logging on/off inside a scenario must be invisible: compare with the twin that never touches the switches
+    byb = {body: g for body, g, rk in groups}
+    for body, g, rk in groups:
+        if rk is True or ' dbg ' not in body:
+            continue
+        twin = strip_dbg(body)
+        if not twin or twin not in byb:
+            continue
+        for cfg in CFGS:
+            e, tw = erase_T(body, T_of(impl[g[cfg]])), T_of(impl[byb[twin][cfg]])
+            if e is not None and tw is not None and tw.startswith('T=') and e != tw:
+                bad.append((body, f'scenario `{body}` in configuration {cfg}: with its logging switches {e} ; with the switch operations removed {tw}', None))
+                break
+    bad.sort(key=lambda b: b[2] is not None)
     for body, what, key in (bad[:4] + [b for b in bad[4:] if b[2] is not None][:2]) if report else []:
         out.violation('transcripts differ between logging configurations: ' + what,
                       {'kind': 'impl-oracle', 'scenario': body, 'observed': what, 'how': 'python3 check.py C19 --replay <this file>'}, key=key)
@@ -435,11 +500,11 @@ def run(tier):
     # ---- evidence (all numbers measured)
     dist = {}
     for body, g, rk in groups:
-        t = body.split()[0]
+        t = body[len(NOHOME):].split()[0] + '@nohome' if body.startswith(NOHOME) else body.split()[0]
         dist[t] = dist.get(t, 0) + 1
     opk = {}
     for body, g, rk in groups:
-        for o in ([] if body.startswith('lib ') else body.split(' ; ')):
+        for o in ([] if body.startswith('lib ') else body[len(NOHOME) if body.startswith(NOHOME) else 0:].split(' ; ')):
             k = o.split()[1] if o.split()[0] in SHAPES else o.split()[0]
             opk[k] = opk.get(k, 0) + 1
     dbg_lines = [impl[g['debug']] for _, g, _ in groups if impl[g['debug']]]
@@ -461,7 +526,7 @@ def run(tier):
         'traces_validated_against_impl': len(ops) - len(diffs),
         'rule': 'one evaluation = one scenario under one logging configuration (or one SprintV vector); every scenario is replayed under off/debug/trace/env '
                 'in separate processes; non-trivial = distinct (target, transcript) of scenarios in which a mock was reached with debug open (wrapper run or call logged)',
-        'distribution': {'scenarios': len(groups), 'isolated_scenarios(cycles, logger-called target, Origin leaf targets, library functions)': sum(1 for _, _, rk in groups if rk), 'sprintv_vectors': len(sv),
+        'distribution': {'scenarios': len(groups), 'isolated_scenarios(cycles, logger-called target, Origin leaf targets, library functions)': sum(1 for _, _, rk in groups if rk is True), 'unopenable_log_file_scenarios': sum(1 for _, _, rk in groups if rk == 'h'), 'sprintv_vectors': len(sv),
                          'by_target': dist, 'by_op': opk, 'callback_runs_through_wrapper(debug cfg)': wrapped_runs, 'call_log_lines(debug cfg)': logged,
                          'panic_outcomes(debug cfg)': panics, 'process_deaths': crashes, 'oracle_failures': len(bad),
                          'oracle_failures_matching_known_finding': sum(1 for b in bad if b[2] is not None), 'model_disagreements': len(diffs),
@@ -487,6 +552,21 @@ def replay(body):
                 print(f'{op}\n  impl : {impl[i]}\n  model: {model[i] if model else None}')
                 rc |= int(not norm_for_model(impl[i], model[i] if model else impl[i]))
             return rc
+    isolated = bool(CYC_RE.search(scen)) or scen.split()[0] in ('it', 'ow', 'ox', 'oz', 'lib')
+    if not isolated:
+        twin = strip_dbg(scen) if ' dbg ' in scen else ''
+        ops, impl, model, groups, _ = execute([scen] + ([twin] if twin else []), [], [], tag='c19-replay')
+        out = C.Outcome('C19', 'replay')
+        bad, diffs = assess(ops, impl, model, groups, out, report=False)
+        for i, op in enumerate(ops):
+            print(f'{op}\n  impl : {impl[i]}\n  model: {model[i] if model else None}')
+        for _, what, key in bad:
+            print('oracle:', what, ('(known finding ' + key + ')') if key else '')
+        if diffs:
+            print('model disagrees on', [d[1] for d in diffs])
+        if not bad and not diffs:
+            print('oracle: ok')
+        return 1 if (bad or diffs) else 0
     ops, impl, model, groups, _ = execute([], [scen], [], tag='c19-replay')
     b, g, _ = groups[0]
     for cfg in CFGS:
